@@ -1,0 +1,11 @@
+//go:build !verif
+
+package index
+
+// No-op counterparts of the verification instrumentation in verif_trace.go.
+
+func verifRootReplaced(*Writer, *Snapshot)                  {}
+func verifSegmentIntroducing(*Writer, *segmentIntroduction) {}
+func verifMergeIntroducing(*Writer, *segmentMerge)          {}
+func verifPersisterGrab(*Writer, *Snapshot, int, int)       {}
+func verifPersisted(*Writer, *Snapshot, error, int)         {}
